@@ -5,7 +5,7 @@ from gen import SeqGen
 ID = "C14"
 HEAP_SUMMARY = True      # end every program with the reference-level observation (BB.Model.Heap vs id() walk)
 LEAN_MODULE = "BB.Properties.C14"
-QUICK_N = 250
+QUICK_N = 500
 THOROUGH_N = 4000
 ERRCLASS = False          # pinned classes (ValueError, SequencingError) are checked inside the deferred comparison
 RULE = ("consistent sequences of 1-3 positions and 1-3 channels (channel order != sorted order, blueprint and raw-array "
